@@ -39,14 +39,18 @@ def mapChars (ci : CharInfo) : Option Char → List Char → List Char
 def replaceSpaceHyphen (cs : List Char) : List Char :=
   cs.map fun c => if c == ' ' || c == '-' then '_' else c
 
-/-- `_parse_attribute_name(name)`; `reserved` is `RESERVED_PROPERTIES`. -/
-def attrNameChars (ci : CharInfo) (reserved : List String) (name : List Char) : List Char :=
-  let cs := replaceSpaceHyphen (mapChars ci none name)
+/-- the last three steps of `_parse_attribute_name`: empty → "blank"; a first character outside
+    `ascii_letters + "_"` gets a `_` in front; a reserved name gets a `_` behind -/
+def finishName (reserved : List String) (cs : List Char) : List Char :=
   match cs with
   | [] => "blank".toList
-  | c :: _ =>
-    let cs := if isFirstChar c then cs else '_' :: cs
-    if reserved.contains (String.ofList cs) then cs ++ ['_'] else cs
+  | c :: rest =>
+    let cs' := if isFirstChar c then c :: rest else '_' :: c :: rest
+    if reserved.contains (String.ofList cs') then cs' ++ ['_'] else cs'
+
+/-- `_parse_attribute_name(name)`; `reserved` is `RESERVED_PROPERTIES`. -/
+def attrNameChars (ci : CharInfo) (reserved : List String) (name : List Char) : List Char :=
+  finishName reserved (replaceSpaceHyphen (mapChars ci none name))
 
 def attrName (ci : CharInfo) (reserved : List String) (name : String) : String :=
   String.ofList (attrNameChars ci reserved name.toList)
